@@ -166,9 +166,13 @@ fn file_versions(
         let path = PathBuf::from(item.key());
         if path == uri.to_file_path().unwrap() {
             file_versions.insert(path, version);
-        } else {
+        } else if version.is_none() {
             file_versions.insert(path, None);
         }
+        // A request that carries a new version says nothing about the other documents: they are left
+        // out, so the module cache falls back to each file's modification time / content hash. With an
+        // explicit `None` ("up to date") an edit to another document was never compiled when its own
+        // request had been cancelled or replaced in the channel by this one.
     }
     file_versions
 }
